@@ -166,6 +166,10 @@ pub enum BState {
     KilledInjected,
     /// injected kill followed by an admin configure_bank(operational_state = n) attempt (0 Paused, 1 Operational, 2 ReduceOnly)
     KilledThenConfigure(u8),
+    /// Paused / injected kill on a bank that also carries TOKENLESS_REPAYMENTS_ALLOWED (set by the admin through
+    /// configure_bank): the sunset flag must not soften the bank state
+    PausedTokenless,
+    KilledTokenless,
 }
 impl BState {
     pub fn name(&self) -> &'static str {
@@ -175,10 +179,12 @@ impl BState {
             BState::ReduceOnly => "ReduceOnly",
             BState::KilledInjected => "Killed",
             BState::KilledThenConfigure(_) => "Killed+configure",
+            BState::PausedTokenless => "Paused+tokenless-flag",
+            BState::KilledTokenless => "Killed+tokenless-flag",
         }
     }
     fn killed(&self) -> bool {
-        matches!(self, BState::KilledInjected | BState::KilledThenConfigure(_))
+        matches!(self, BState::KilledInjected | BState::KilledThenConfigure(_) | BState::KilledTokenless)
     }
 }
 pub const STATES: [BState; 4] = [BState::Operational, BState::Paused, BState::ReduceOnly, BState::KilledInjected];
@@ -926,6 +932,17 @@ fn apply_state(w: &mut World, st: BState) -> Result<(), String> {
             set_op_state_bytes(&mut w.vm, &tk, BankOperationalState::KilledByBankruptcy);
             let _ = configure(w, op_state(n));
         }
+        BState::PausedTokenless | BState::KilledTokenless => {
+            let mut o = BankConfigOpt::default();
+            o.tokenless_repayments_allowed = Some(true);
+            let ix = w.ix_configure_bank(T, o, w.roles.admin);
+            w.vm.exec(&ix).map_err(|e| format!("configure_bank(tokenless_repayments_allowed) refused: {e:?}"))?;
+            if st == BState::PausedTokenless {
+                configure(w, BankOperationalState::Paused).map_err(|e| format!("configure_bank(Paused) refused: {e:?}"))?;
+            } else {
+                set_op_state_bytes(&mut w.vm, &tk, BankOperationalState::KilledByBankruptcy);
+            }
+        }
     }
     Ok(())
 }
@@ -1061,9 +1078,9 @@ fn expectation(row: Row, state: BState, col: PCol, paused: bool, baseline_ok: bo
     // bank state
     let bank_fail = match state {
         BState::Operational => false,
-        BState::Paused => row.touches_bank(),
+        BState::Paused | BState::PausedTokenless => row.touches_bank(),
         BState::ReduceOnly => row.refused_reduce_only(),
-        BState::KilledInjected | BState::KilledThenConfigure(_) => row.touches_bank(),
+        BState::KilledInjected | BState::KilledThenConfigure(_) | BState::KilledTokenless => row.touches_bank(),
     };
     if bank_fail {
         return Expect::Fail(state.name());
@@ -1160,6 +1177,10 @@ fn extra_cells() -> Vec<(BState, PCol, i64)> {
     for n in 0..3u8 {
         v.push((BState::KilledThenConfigure(n), PCol::Never, 2 * P));
         v.push((BState::KilledThenConfigure(n), PCol::ExpiredUntouched, 2 * P));
+    }
+    for st in [BState::PausedTokenless, BState::KilledTokenless] {
+        v.push((st, PCol::Never, 2 * P));
+        v.push((st, PCol::ExpiredUntouched, 2 * P));
     }
     v
 }
